@@ -492,7 +492,7 @@ func (x *X) assumeEnsures(fr *Frame, st, pre *State, fn *ssa.Function, c, sch *C
 	ovars := x.paramVars(fn, args)
 	x.resultVars(fn, vars, rets)
 	resolve := x.fnResolver(fn, nil)
-	for _, cc := range []*Contract{c, sch} {
+	for _, cc := range []*Contract{c, sch, x.defaultEnsures(fn)} {
 		if cc == nil {
 			continue
 		}
